@@ -72,3 +72,29 @@ for _nc, _nd, _nv, _tiers in ((2, 2, 1, ('quick', 'thorough')), (2, 3, 1, ('quic
              'Model::getCovMode -> EModelProperty::TAPE or NONE (symbolic)',
              'model_cova_characteristics -> symbolic flag_range in {-1,0,1} and flag_param in {0,1} per structure; the other outputs are fixed values not read by st_parid_alloc',
              'static enum items EConsElem::{RANGE,ANGLE,PARAM,SILL,T_RANGE}, EModelProperty::{NONE,TAPE}: _value written by hand in the solver build; the native build aborts if the library values differ'])
+
+
+# ---------------------------------------------------------------- C17.g (builder3: user bounds on sills when the sills are fitted in AIC form)
+_SILLTUS = ['src/Enum/Enums.cpp', 'src/Model/Constraints.cpp', 'src/Model/ConsItem.cpp', 'src/Model/CovParamId.cpp', 'src/Model/Option_VarioFit.cpp',
+            'src/Covariances/CovAniso.cpp', 'src/Basic/AStringable.cpp', 'src/Basic/Utilities.cpp']
+for _tag, _ni, _vario, _tiers in (('vmap.1', 1, 0, ('quick', 'thorough')), ('vmap.2', 2, 0, ('quick', 'thorough')), ('vario.2', 2, 1, ('quick', 'thorough'))):   # 3 items: the engine refuses a copy through merged (symbolic) vector pointers inside ConsItem::clone
+    K('C17.g.' + _tag, property='C17', engine='symex', harness='C17/sillbounds.cpp', entry='k_sill_bounds', tus=_SILLTUS,
+      defines={'all': dict({'VF_NITEM': _ni}, **({'VF_VARIO': 1} if _vario else {}))}, tiers=_tiers,
+      bounds={'quick': '%s; constraint list of exactly %d item(s), each with igrf in [0,1], icov in [0,2], any of the 10 element types, iv1, iv2 in [0,1], any constraint type (LOWER, DEFAULT, UPPER, EQUAL), '
+                       'any real value in [0, 2^20] or [-2^20 - 1, -1]; Goulard flag on or off at entry; model of 1 or 2 variables; space dimension 1..3; any structure (igrf, icov) and any real '
+                       'coefficient for the semantic check' % ('st_alter_model_optvar (variogram fit, 2 directions, each horizontal or not)' if _vario else 'st_alter_vmap_optvar (variogram-map fit)', _ni)},
+      timeout_ms={'quick': 120000, 'thorough': 600000}, validate={'quick': 60, 'thorough': 120}, validate_doubles='int',
+      what=('st_alter_model_optvar' if _vario else 'st_alter_vmap_optvar') + ' (model_auto.cpp, included as a translation unit), Constraints::isDefinedForSill, modify_constraints_on_sill, Constraints::setValue / addItem, '
+           'ConsItem copy / clone, constraints_get: when the list holds a sill item and Goulard is on at entry, success leaves Goulard off AND every sill item transformed (value v\' >= 0, v\'^2 == user value, '
+           'identifier and type unchanged, other items unchanged, one LOWER item -v\' appended per UPPER item on the sill (0,0)); a coefficient a within the LOWER / UPPER values constraints_get then reports '
+           'gives a sill a^2 within the user\'s bounds and the DEFAULT value squares to the user\'s default; a negative sill bound makes the call fail; otherwise flag and items are unchanged; '
+           'success with several variables only with Goulard on',
+      out='Goulard already off at entry (user option, or anamorphosis properties: st_modify_optvar_for_anam) with sill items present: the code does NOT transform them there although the sills are then in AIC form '
+          '(nothing is documented for that case; the kernel only asserts that nothing changes); the other option flags set by the function; several items of the same side on one parameter '
+          '(first one wins in both the reference and constraints_get); the optimiser; sills of several variables (Goulard is mandatory there)',
+      assumptions=['real-arithmetic reading of sqrt (r >= 0, r*r == x); validation / replay use perfect squares (integer g, bound g^2)', 'undefined is TEST = 1.234e30 (FFFF(x) is x > 1e30 in the NaN-free reading)',
+                   'Model and CovAniso are raw storage (_cova -> raw CovAniso with the real vtable and _ctxt._nVar); the grid Db is raw storage whose virtual getNDim returns the symbolic dimension'
+                   + ('; Vario is raw storage whose VarioParam::_dirparams has length 2' if _vario else '')],
+      stubs=['Model::getCovAnisoList -> nullptr (no anamorphosis properties: the dynamic_cast of st_modify_optvar_for_anam gives nullptr)',
+             'EConsElem::fromValue / fromKey, getDefaultSpaceType, static enum items written by hand: as C17.b', 'messerr / message: empty']
+            + (['Vario::getCodir -> third component 0 or 1 per direction (symbolic); ASpaceObject::getNDim -> the symbolic space dimension (behind Model::getDimensionNumber)'] if _vario else []))
